@@ -70,6 +70,8 @@ struct Oracle {
 	finished_ids: Vec<Value>,
 	/// what the last delivered text decided about a pending subscribe: (op, "in-use" | "accepted" | "accepted-twin")
 	sub_events: Vec<(usize, &'static str, String)>,
+	/// calls the last delivered text answered
+	answered_calls: Vec<usize>,
 }
 
 impl Oracle {
@@ -151,6 +153,7 @@ impl Oracle {
 				if let Some(op) = self.calls.iter().find(|(_, v)| **v == id).map(|(k, _)| *k) {
 					self.calls.remove(&op);
 					self.finished_ids.push(id);
+					self.answered_calls.push(op);
 					return;
 				}
 				// subscription ids in use on this connection right now: accepted, not closed by the server, and the client has
@@ -390,8 +393,25 @@ fn run_one(out: &mut Out, lines: &[String]) {
 				if array_has_response(&text) && obs.fatal.is_none() && !obs.comps.iter().any(|(_, c)| matches!(c, Comp::Batch { .. } | Comp::E(_))) && verdict.is_ok() {
 					verdict = Err(format!("the responses inside the array {text} took no effect: no batch completed and the connection was not given up"));
 				}
+				// whatever the server says about a subscription or a method in a well-formed notification, the connection survives it
+				if let Ok(v) = serde_json::from_str::<Value>(&text) {
+					if v.is_object() && msg_kind(&v) == MsgKind::Notification {
+						out.count("notification.survived.checked");
+						if let (Some(f), true) = (&obs.fatal, verdict.is_ok()) {
+							verdict = Err(format!("the well-formed notification {text} ended the connection ({f})"));
+						}
+					}
+				}
 				orc.sub_events.clear();
+				orc.answered_calls.clear();
 				orc.deliver(&text);
+				// the answer to a call the application still waits for completes it (the connection works)
+				for op in &orc.answered_calls {
+					out.count("call-answer.checked");
+					if obs.fatal.is_none() && verdict.is_ok() && !obs.comps.iter().any(|(o, c)| o == op && matches!(c, Comp::Ok(_) | Comp::CallErr { .. })) {
+						verdict = Err(format!("the answer {text} to call {op} did not complete it: completions {:?}", obs.comps.iter().map(|(o, c)| format!("{o}:{}", c.render())).collect::<Vec<_>>()));
+					}
+				}
 				// the answer to a subscribe call: an id already in use on this connection is refused with InvalidSubscriptionId,
 				// any other id (also the same digits in the other JSON kind) is accepted
 				for (op, what, sid) in &orc.sub_events {
@@ -917,6 +937,125 @@ impl G {
 				self.old_sids.push(sid);
 				owed
 			}
+			21 => {
+				// Between the client's unsubscribe request and the server's answer to it, the server still talks about that
+				// subscription id: (a) its close notification (the server ended the stream on its own at the same moment),
+				// (b) ordinary notifications in flight, (c) the id handed out again to a new subscribe — in every order.  The
+				// id is free on the client from the moment the unsubscribe call is written (seeded mutant C09-R7 kept the reverse
+				// mapping until the acknowledgement: the close notification then panics the read task).
+				out.count("cycle.sub.between-unsub-and-ack");
+				self.sid_counter += 1;
+				let sid = if rng.chance(1, 2) { format!("\"B{}\"", self.sid_counter) } else { format!("{}", 7000 + self.sid_counter) };
+				let str_ids = self.str_ids;
+				let accept = |id: u64, sid: &str| format!("{{\"jsonrpc\":\"2.0\",\"id\":{},\"result\":{sid}}}", idj(id, str_ids));
+				let note = |sid: &str, v: u64| format!("{{\"jsonrpc\":\"2.0\",\"method\":\"sub\",\"params\":{{\"subscription\":{sid},\"result\":{v}}}}}");
+				let close = |sid: &str| format!("{{\"jsonrpc\":\"2.0\",\"method\":\"sub\",\"params\":{{\"subscription\":{sid},\"error\":\"closed by the server\"}}}}");
+				let mut owed = vec![];
+				self.lines.push("cl subscribe".into());
+				let a_id = self.next_id;
+				let a_op = self.next_op;
+				self.next_id += 2;
+				self.next_op += 1;
+				self.deliver(&accept(a_id, &sid));
+				if rng.chance(1, 2) {
+					self.deliver(&note(&sid, 1));
+					self.lines.push(format!("cl next {a_op}"));
+				}
+				match rng.below(3) {
+					0 => {
+						out.count("between.ended-by.unsub");
+						self.lines.push(format!("cl unsub {a_op}"));
+					}
+					1 => {
+						out.count("between.ended-by.drop");
+						self.lines.push(format!("cl drop {a_op}"));
+					}
+					_ => {
+						out.count("between.ended-by.lag");
+						for v in 0..=self.cap {
+							self.deliver(&note(&sid, 10 + v));
+						}
+					}
+				}
+				owed.push(Owed::UnsubAck(a_id + 1, rng.below(16)));
+				// what the server says about the id before it answers the unsubscribe call
+				let mut events: Vec<u8> = vec![];
+				if rng.chance(3, 4) {
+					events.push(b'a');
+				}
+				for _ in 0..rng.below(3) {
+					events.push(b'b');
+				}
+				if rng.chance(1, 2) {
+					events.push(b'c');
+				}
+				if rng.chance(1, 4) {
+					events.push(b'a');
+				}
+				if events.is_empty() {
+					events.push(b'a');
+				}
+				for i in (1..events.len()).rev() {
+					let j = rng.below(i as u64 + 1) as usize;
+					events.swap(i, j);
+				}
+				out.count(&format!("between.first.{}", events[0] as char));
+	for k in [b'a', b'b', b'c'] {
+		if events.contains(&k) {
+			out.count(&format!("between.has.{}", k as char));
+		}
+	}
+	if events.iter().position(|e| *e == b'c').zip(events.iter().rposition(|e| *e == b'a')).map(|(c, a)| c < a).unwrap_or(false) {
+		out.count("between.close-after-resubscribe");
+	}
+				// the new holder of the id, if any: (op, request id, still open)
+				let mut holder: Option<(usize, u64)> = None;
+				let mut v = 100;
+				for e in events {
+					match e {
+						b'a' => {
+							self.deliver(&close(&sid));
+							holder = None;
+						}
+						b'b' => {
+							v += 1;
+							self.deliver(&note(&sid, v));
+							if let Some((c_op, _)) = holder {
+								self.lines.push(format!("cl next {c_op}"));
+							}
+						}
+						_ => {
+							if let Some((c_op, c_id)) = holder.take() {
+								self.lines.push(format!("cl drop {c_op}"));
+								owed.push(Owed::UnsubAck(c_id + 1, rng.below(16)));
+							}
+							self.lines.push("cl subscribe".into());
+							let c_id = self.next_id;
+							let c_op = self.next_op;
+							self.next_id += 2;
+							self.next_op += 1;
+							self.deliver(&accept(c_id, &sid));
+							holder = Some((c_op, c_id));
+						}
+					}
+					if rng.chance(1, 4) {
+						self.sizes();
+					}
+				}
+				if let Some((c_op, c_id)) = holder {
+					self.lines.push(format!("cl {} {c_op}", if rng.chance(1, 2) { "unsub" } else { "drop" }));
+					owed.push(Owed::UnsubAck(c_id + 1, rng.below(16)));
+				}
+				// the connection still works
+				if rng.chance(1, 2) {
+					self.lines.push("cl call".into());
+					owed.push(Owed::CallAnswer(self.next_id));
+					self.next_id += 1;
+					self.next_op += 1;
+				}
+				self.old_sids.push(sid);
+				owed
+			}
 			_ => {
 				out.count("cycle.sub.abandoned");
 				self.lines.push("cl subscribe".into());
@@ -972,9 +1111,9 @@ fn gen_case(rng: &mut Rng, caseno: u64, out: &mut Out, long: Option<(u64, u64)>)
 			for _ in 0..rounds {
 				let k = rng.range(1, 4);
 				let mut owed: Vec<Owed> = vec![];
-				let single_kind = if rng.chance(2, 3) { Some(rng.below(21)) } else { None };
+				let single_kind = if rng.chance(2, 3) { Some(rng.below(22)) } else { None };
 				for _ in 0..k {
-					let kind = single_kind.unwrap_or_else(|| rng.below(22));
+					let kind = single_kind.unwrap_or_else(|| rng.below(23));
 					owed.extend(g.cycle(rng, kind, out));
 					if rng.chance(1, 5) {
 						g.sizes();
@@ -1009,9 +1148,21 @@ fn gen_case(rng: &mut Rng, caseno: u64, out: &mut Out, long: Option<(u64, u64)>)
 			let t = format!("{{\"jsonrpc\":\"2.0\",\"id\":{},{payload}}}", idj(id, g.str_ids));
 			g.deliver(&t);
 		} else {
-			let (name, text) = near_miss(rng, &idj(id, g.str_ids));
-			out.count(name);
-			g.lines.push(format!("cl deliverx {}", hexs(&text)));
+			if rng.chance(1, 4) {
+				// a binary frame whose bytes are no UTF-8: the well-formed answer to a call that is pending, with one damaged
+				// character inside a string (or a notification of that kind)
+				g.lines.push("cl call".into());
+				let cid = g.next_id;
+				g.next_id += 1;
+				g.next_op += 1;
+				let place = rng.below(UTF8_PLACES as u64) as usize;
+				let bytes = utf8_corruption(rng, place, &idj(cid, g.str_ids), "\"S1\"", |k| out.count(k));
+				g.lines.push(format!("cl deliverx {} bin", hex(&bytes)));
+			} else {
+				let (name, text) = near_miss(rng, &idj(id, g.str_ids));
+				out.count(name);
+				g.lines.push(format!("cl deliverx {}", hexs(&text)));
+			}
 		}
 		// the API once more on the connection the client has given up
 		out.count("second.api-after-connection-given-up");
@@ -1048,7 +1199,7 @@ fn main() {
 		let mut caseno = 0u64;
 		// every cycle kind repeated: 1..200 (quick: 3 lengths), thorough adds 2000
 		let reps: Vec<u64> = if a.tier == "thorough" { vec![1, 2, 7, 50, 200, 2000] } else { vec![1, 5, 200] };
-		for kind in 0..21u64 {
+		for kind in 0..22u64 {
 			for r in &reps {
 				caseno += 1;
 				let ls = gen_case(&mut rng, caseno, &mut out, Some((kind, *r)));
